@@ -44,6 +44,7 @@ type G struct {
 	top     *frame
 	why     string
 	wakeAt  int64 // virtual ns, for gSleeping
+	rlocks  map[*value]int // RWMutexes this goroutine holds for reading
 }
 
 type Chan struct {
